@@ -185,3 +185,10 @@ reg(Spec('C16', ['c16:C16'],
          thorough=[('HDR', 60000), ('DUPLEX', 40000), ('ADV', 40000)],
          overrides={'*': {'cl': 0.5, 'cl_lie': 0.3, 'matrix_outbound': False, 'small_backlog': False}},
          rule=R_RUN + 'non-trivial = a message with END_STREAM on HEADERS or on trailers was delivered (placements other than the last DATA)' + R_DISTINCT))
+
+reg(Spec('C20', ['c20:C20'],
+         quick=[('RACE', 4000), ('DUPLEX', 1000)],
+         thorough=[('RACE', 100000), ('DUPLEX', 20000), ('FLOW', 10000)],
+         overrides={'*': {'ops_boost': {'race': 6, 'push': 3, 'gc': 2}, 'stall': 0.1, 'misuse': 0.03, 'no_manual_winc': True,
+                          'small_closed': 0.5}},
+         rule=R_RUN + 'non-trivial = frames of at least two kinds were delivered on streams after the local reset / push refusal' + R_DISTINCT))
